@@ -228,6 +228,13 @@ func (r *Run) Inconclusive(format string, a ...any) {
 	r.mu.Unlock()
 }
 
+// VerifInconclusives: the case-level inconclusive notes recorded so far (engine tests).
+func (r *Run) VerifInconclusives() []string {
+	r.mu.Lock()
+	defer r.mu.Unlock()
+	return append([]string(nil), r.inconclusive...)
+}
+
 func (r *Run) matchKnown(sig string) *Finding {
 	for i := range r.findings.Known {
 		f := &r.findings.Known[i]
